@@ -954,6 +954,55 @@ def handler_arms(sc):
     return out
 
 
+# files of the two crates that are NOT scanned but contain lock expressions, with the number of expressions (after
+# cutting `mod tests`) and the reason they are outside the request programs.  Any other unscanned file with a lock
+# expression, or a changed count, fails the extraction (file_census): re-review, then update.
+UNSCANNED_LOCK_FILES = {
+    "vls-core/src/verif_sync.rs": (4, "hook H2: the lock-event tap itself (its LOG mutex is a leaf)"),
+    "vls-core/src/util/clock.rs": (2, "ManualClock's own leaf mutex (test clock)"),
+    "vls-core/src/util/mocks.rs": (1, "test mocks"),
+    "vls-core/src/signer/multi_signer.rs": (8, "MultiSigner front end (several nodes in one process): its `nodes` map mutex is "
+                                            "taken first and nests only node_state/tracker of a node under construction; its "
+                                            "with_channel / with_channel_base are copies of Node::with_channel(_base) (slot "
+                                            "section = row channel_request / channel_base_request)"),
+}
+CENSUS_ROOTS = ("vls-core/src", "vls-protocol-signer/src")
+
+
+def file_census(repo):
+    """every .rs file of vls-core/src and vls-protocol-signer/src outside the scanned FILES (test files excluded) that
+    contains a lock expression must be listed in UNSCANNED_LOCK_FILES with its count -> sorted [(file, count)]"""
+    import os
+    found = {}
+    scanned = set(FILES.values())
+    for root in CENSUS_ROOTS:
+        base = os.path.join(repo, root)
+        if not os.path.isdir(base):
+            raise ExtractError("source directory disappeared: " + root)
+        for dp, _, fns in sorted(os.walk(base)):
+            for fn in sorted(fns):
+                rel = os.path.relpath(os.path.join(dp, fn), repo)
+                if not fn.endswith(".rs") or rel in scanned:
+                    continue
+                if fn.endswith("_tests.rs") or fn.endswith("_test.rs") or "/test_utils" in rel or "/tests/" in rel:
+                    continue
+                src = blank_literals(cut_tests(strip_comments(read(repo, rel))))
+                n = len(LOCK_SITE_RE.findall(src))
+                if n:
+                    found[rel] = n
+    for rel, n in sorted(found.items()):
+        if rel not in UNSCANNED_LOCK_FILES:
+            raise ExtractError("%s contains %d lock expression(s) but is not scanned: add it to FILES (and the call "
+                               "resolution), or review it and list it in UNSCANNED_LOCK_FILES" % (rel, n))
+        if UNSCANNED_LOCK_FILES[rel][0] != n:
+            raise ExtractError("%s: %d lock expressions, reviewed with %d (UNSCANNED_LOCK_FILES): re-review"
+                               % (rel, n, UNSCANNED_LOCK_FILES[rel][0]))
+    for rel in UNSCANNED_LOCK_FILES:
+        if rel not in found:
+            raise ExtractError("UNSCANNED_LOCK_FILES lists %s, which has no lock expression any more" % rel)
+    return sorted(found.items())
+
+
 def call_census(sc):
     """Fail-closed check of the call-graph resolution (lock scopes taken through helper functions): every call
     `recv.name(` / `name(` in a scanned body that the name-based resolution did NOT follow, although `name` is the
@@ -1180,6 +1229,7 @@ def build(repo):
     sc.arms = arms
     sc.sites, sc.unreached = site_census(sc)
     sc.unresolved_locking = call_census(sc)
+    sc.unscanned_files = file_census(repo)
     return sc, table
 
 
@@ -1296,6 +1346,10 @@ def extract(repo):
           "x_locks.py (trait objects of the approver delegate chain, constructors/restore code, same-name methods of the",
           "guarded data); any other such call makes the extraction fail -/",
           "def unresolvedCalls : List String := [%s]" % ", ".join('"%s"' % k for k in sc.unresolved_locking)]
+    L += ["", "/-- files of vls-core/src and vls-protocol-signer/src that are not scanned although they contain lock",
+          "expressions (file, number of expressions), each reviewed in UNSCANNED_LOCK_FILES of x_locks.py; any other such",
+          "file, or a changed count, makes the extraction fail -/",
+          "def unscannedLockFiles : List (String × Nat) := [%s]" % ", ".join('("%s", %d)' % kv for kv in sc.unscanned_files)]
     docs = documented_orders(repo)
     L += ["", "/-- the lock orders that comments of the sources document (`lock order: a -> b -> c`, `a before b`,",
           "monitor.rs `Lock order: after self.state`): (file:line, chain of classes) -/",
@@ -1335,6 +1389,7 @@ def extract(repo):
                              "lock_expressions": sum(s[1] for s in sc.sites),
                              "in_reached_functions": sum(s[1] for s in sc.sites if s[2]),
                              "unreached": {k: NON_REQUEST_SITES[k] for k in sc.unreached}}
+    facts["_unscanned_files_with_locks"] = {k: UNSCANNED_LOCK_FILES[k][1] for k, _ in sc.unscanned_files}
     facts["_call_census"] = {k: UNRESOLVED_OK[k] for k in sc.unresolved_locking}
     facts["_documented_lock_orders"] = {w: " -> ".join(ch) for w, ch in docs}
     facts["_scanned_functions"] = sorted(sc.scanned)
